@@ -49,6 +49,7 @@ type config struct {
 	ng       int
 	nsr      int
 	maxBytes int
+	totalBytes int
 	unit     int64 // nanoseconds per model time unit
 	rangeIdx int   // 0: the operator owns the whole key space; 1: the upper half of a 2*NG space
 	memtable int   // 0 = DKV default (nothing is ever flushed)
@@ -70,7 +71,7 @@ func digits(n int) []int {
 func newConfig(in *mbt.Input) (*config, error) {
 	c := &config{
 		kgOf: digits(in.CfgInt("KGCode", 112)), keyLen: digits(in.CfgInt("LenCode", 111)),
-		ng: in.CfgInt("NG", 2), nsr: in.CfgInt("NSR", 2), maxBytes: in.CfgInt("MaxBytes", 25),
+		ng: in.CfgInt("NG", 2), nsr: in.CfgInt("NSR", 2), maxBytes: in.CfgInt("MaxBytes", 25), totalBytes: in.CfgInt("TotalCacheBytes", -1),
 		unit: int64(in.CfgInt("Unit", 1)), rangeIdx: in.CfgInt("RangeIdx", 0), memtable: in.CfgInt("MemTable", 0),
 		free: in.CfgBool("Free", false),
 	}
@@ -239,7 +240,11 @@ func (r *regRun) dbOptions() dkv.DBOptions {
 
 func (r *regRun) open(handles []recovery.CheckpointHandle) {
 	r.db = dkv.Open(r.dbOptions(), handles)
-	store := operator.NewTimerStore(r.db, r.c.keySpace, r.c.kgRange, uint64(r.c.maxBytes*r.c.ng))
+	total := uint64(r.c.maxBytes * r.c.ng)
+	if r.c.totalBytes >= 0 { // a cache budget given for the whole operator (e.g. fewer bytes than key groups: every share is 0)
+		total = uint64(r.c.totalBytes)
+	}
+	store := operator.NewTimerStore(r.db, r.c.keySpace, r.c.kgRange, total)
 	r.reg = operator.NewTimerRegistry(store, r.c.srIDs)
 }
 
